@@ -64,6 +64,7 @@ Fixpoint spec_find (fuel : nat) (te : tenv) (s : str) (k : str) : option (list n
   end.
 
 Definition designates (fuel : nat) (te : tenv) (s : str) (k : str) : option (list nat) :=
+  if nonname_key k then None else     (* a key that is not a symbol or string names no field *)
   match spec_find fuel te s k with
   | Some p => Some p
   | None => match upper_first k with Some k' => spec_find fuel te s k' | None => None end
@@ -295,6 +296,7 @@ Fixpoint nodup_str (l : list str) : bool :=
 
 Definition wf_struct (fuel : nat) (te : tenv) (d : sdecl) : bool :=
   nodup_str (map fst (jsonmap fuel te (s_name d) []))
+  && forallb (fun k => negb (nonname_key k)) (map fst (jsonmap fuel te (s_name d) []))
   && forallb (fun fld => negb (f_emb fld) || match f_type fld with TStruct _ => true | _ => false end) (s_fields d)
   && forallb (fun fld => match f_type fld with
                          | TStruct s | TPtr s => match find_struct te s with Some _ => true | None => false end
